@@ -179,14 +179,19 @@ def check_pairs(env, out, s, b, label_prefix=""):
 
 
 # ---------------------------------------------------------------- SingleAnnotatorWrapper
-def _saw(env, s, b, napp, perf, table=None, timeout=2, enc="float"):
+def _saw(env, s, b, napp, perf, table=None, timeout=2, enc="float", inner_kind="us"):
     P = __import__("skactiveml.pool.multiannotator", fromlist=["SingleAnnotatorWrapper"])
     clf = models.StubClassifier(classes=[0, 1], n_classes=2, gen=7) if env.sym else \
         models.real_table_classifier([(row, p) for _, row, p in (table or [])], n_classes=2)
     clf.classes_ = np.arange(2)
     y, missing = _encode_y(env, s, enc)
     clf.missing_label = missing
-    inner = pl.pool().UncertaintySampling(method="least_confident", random_state=s.seed, missing_label=missing)
+    if inner_kind == "random":
+        inner = pl.pool().RandomSampling(random_state=s.seed, missing_label=missing)      # no classifier arguments
+        qkw = {}
+    else:
+        inner = pl.pool().UncertaintySampling(method="least_confident", random_state=s.seed, missing_label=missing)
+        qkw = dict(clf=clf, fit_clf=False)
     w = P.SingleAnnotatorWrapper(strategy=inner, random_state=s.seed, missing_label=missing)
     A_perf = None
     if perf == "vector":
@@ -198,7 +203,7 @@ def _saw(env, s, b, napp, perf, table=None, timeout=2, enc="float"):
     _alarm(timeout)
     try:
         out = w.query(s.X, y, candidates=s.cand, annotators=s.annot, batch_size=b, n_annotators_per_sample=napp,
-                      A_perf=A_perf, return_utilities=True, clf=clf, fit_clf=False)
+                      A_perf=A_perf, return_utilities=True, **qkw)
     except Timeout:
         env.prove(False, "query_terminates", info=dict(timeout_s=timeout))
         return
@@ -226,21 +231,21 @@ def _saw(env, s, b, napp, perf, table=None, timeout=2, enc="float"):
     return pairs
 
 
-def sym_saw(c, n, A, cmode, amode, b, napp, perf, enc="float"):
+def sym_saw(c, n, A, cmode, amode, b, napp, perf, enc="float", inner="us"):
     s = gen(c, n, A, cmode, amode)
     if not s.avail:
         raise core.PathAbort("no available pair")
-    _saw(pl.Env(c), s, b, napp, perf, enc=enc)
+    _saw(pl.Env(c), s, b, napp, perf, enc=enc, inner_kind=inner)
     c.witness(True, "ran")
 
 
-def replay_saw(inputs, label, n, A, cmode, amode, b, napp, perf, enc="float"):
+def replay_saw(inputs, label, n, A, cmode, amode, b, napp, perf, enc="float", inner="us"):
     s = real_gen(inputs, n, A, cmode, amode)
     s.A_perf = inputs.get("A_perf")
     for seed in [s.seed] + ([] if inputs.get("__scripted__") else list(range(12))):
         s.seed = seed
         env = pl.Env()
-        _saw(env, s, b, napp, perf, table=inputs.get("__clf__"), timeout=5, enc=enc)
+        _saw(env, s, b, napp, perf, table=inputs.get("__clf__"), timeout=5, enc=enc, inner_kind=inner)
         label = pl.reproduced(env, label) or label
         if label in env.violated:
             return True, (f"SingleAnnotatorWrapper(UncertaintySampling, random_state={seed}, labels={enc}).query(X={s.X.ravel().tolist()}, "
@@ -300,11 +305,11 @@ def replay_iet(inputs, label, n, A, cmode, amode, b, enc="float"):
     return False, "not reproduced"
 
 
-def validate_saw(inputs, n, A, cmode, amode, b, napp, perf, enc="float"):
+def validate_saw(inputs, n, A, cmode, amode, b, napp, perf, enc="float", inner="us"):
     s = real_gen(inputs, n, A, cmode, amode)
     s.A_perf = inputs.get("A_perf")
     env = pl.Env()
-    _saw(env, s, b, napp, perf, table=inputs.get("__clf__"), timeout=5, enc=enc)
+    _saw(env, s, b, napp, perf, table=inputs.get("__clf__"), timeout=5, enc=enc, inner_kind=inner)
     return sorted(env.violated)
 
 
@@ -328,6 +333,10 @@ def _cfg_saw(tier):
     # integer label matrix with the sentinel -1
     for cmode, amode in ((("none", "none"),) if tier == "quick" else (("none", "none"), ("idx", "idx"), ("rows", "matrix"))):
         out.append(dict(n=2, A=2, cmode=cmode, amode=amode, b=2, napp=1, perf=None, enc="int"))
+    # a wrapped strategy without classifier arguments (RandomSampling)
+    for cmode, amode in ((("none", "none"), ("idx", "idx")) if tier == "quick" else
+                         [(c, a) for c in ("none", "idx", "rows") for a in ("none", "idx", "matrix")]):
+        out.append(dict(n=2, A=2, cmode=cmode, amode=amode, b=2, napp=1, perf=None, inner="random"))
     if tier == "thorough":
         for cmode in ("none", "idx"):
             for amode in ("none", "matrix"):
